@@ -715,3 +715,30 @@ addendum('C14', 'R14: must-pass-through - a scheduled mutator is handed on '
          'on every normal path of _apply_mutator and of the loops over a '
          'pass (sa/mustpass.py); R15 = the dfs / contains part of C12.R5.')
 addendum('C16', 'R10 also covers memoised helpers in the mutator modules.')
+
+
+# ---- round 12 (DESIGN.md 8.4, "Round 12")
+addendum('C05', 'R9 examines every write_smtlib* function of nodeio.py: a '
+         'handler re-raises on every path; R13 also reports a handler around '
+         'the call of _apply_mutator that carries on.')
+addendum('C01', 'R14 = the writer part of C05.R9.')
+addendum('C06', 'R11 = C05.R9.')
+addendum('C02', 'R16: memoised functions of the registry / pass builders '
+         '(kinds of sa/memo.py, including "shared": a cached mutable '
+         'container that a caller modifies, a cached object of a package '
+         'class).')
+addendum('C14', 'R16: as C02.R16 for mutators / options / the strategies.')
+addendum('C10', 'R9 follows aliases of the option namespace.')
+addendum('C12', 'R11: the C type of the shared id counter equals the type '
+         'of every struct field that carries an id.')
+addendum('C04', 'R22: reads of the output path in cli.py are dominated by a '
+         'structural comparison of result and input, or an existence test.')
+addendum('C07', 'R14: no leaf is made of a literal that is still open at the '
+         'end of the text (decision table of the scanner).')
+addendum('C11', 'R15: a simplification is applied once (no apply_simp / '
+         'substitute in a loop that does not bind it).')
+addendum('C16', 'R14: collect_information on every path from the top of '
+         'the hierarchical round loop to the Producer; R15: no strip with a '
+         'character set containing alphanumerics.')
+addendum('C03', 'R16 = C10.R1 (waits bounded by the time limit).')
+
